@@ -291,9 +291,34 @@ def generate(rng, tier):
         f0 = rng.choice(ALPHA)
         yield Case(["ext.from_slice\t%d\t%s" % (f0, hx(data)), "ext.from_slice_lax\t%d\t%s" % (f0, hx(data))], {"k": "slice", "stream": "malformed"})
         yield Case(["ext.v4.from_slice\t%d\t%s" % (rng.choice([51, 51, 0, 17]), hx(data))], {"k": "slice", "stream": "malformed-v4"})
+    yield from _builder_chain_cases(rng, tier)
+
+
+def _builder_chain_cases(rng, tier):
+    """the PacketBuilder's linking of an extension chain (`.ip(IpHeaders::Ipv6(h, exts))` / `::Ipv4(h, exts)` with stale
+    next-header values in the stored headers), through all three finishers (`write`, `write_to_vec`, `write_to_slice`
+    - compared inside the harness) and every final step: C10's configurations, judged by C10's reference builder"""
+    import random as _random
+    from . import c10
+
+    r2 = _random.Random(rng.randrange(1 << 30))
+    n = 0
+    for c in c10.generate(r2, "quick"):
+        cfg = c.meta.get("cfg_text", "")
+        if "ip6:" not in cfg and "ip4:" not in cfg:
+            continue
+        if c.meta.get("payload", "").startswith("len:"):
+            continue
+        n += 1
+        if tier == "quick" and n > 1200 and n % 4:
+            continue
+        c.meta["k"] = "builder"
+        yield c
 
 
 def is_trivial(c):
+    if c.meta.get("k") == "builder":
+        return False
     k = c.meta.get("k")
     if k in ("main", "link", "ether", "isfrag"):
         return c.meta.get("exts") == "-,-,-,-,-,-"
@@ -588,6 +613,9 @@ def oracle(c):
             out.append(("sibling-decoders-differ", {"line": line[:300], "impl": o[:500]}))
     if out:
         return out
+    if k == "builder":
+        from . import c10
+        return c10.oracle(c)
     try:
         if k == "main":
             _oracle_main(c, out)
